@@ -67,10 +67,10 @@ PROP_SYNC = {
     "C08": ["gen/SyncDec.v", "gen/SyncMisc.v"],
     "C09": ["gen/GenConsts.v", "gen/SyncDec.v", "gen/SyncMisc.v"],
     "C10": ["gen/SyncEnc.v", "gen/SyncMisc.v"],
-    "C11": ["gen/SyncEnc.v", "gen/SyncMisc.v", "gen/SyncApi.v"],
+    "C11": ["gen/SyncEnc.v", "gen/SyncMisc.v", "gen/SyncApi.v", "gen/SyncEffects.v"],
     "C12": ["gen/GenConsts.v", "gen/SyncEnc.v", "gen/SyncApi.v"],
-    "C13": ["gen/SyncEnc.v", "gen/SyncDec.v", "gen/SyncMisc.v"],
-    "C14": ["gen/SyncDec.v", "gen/SyncMisc.v"],
+    "C13": ["gen/SyncEnc.v", "gen/SyncDec.v", "gen/SyncMisc.v", "gen/SyncEffects.v"],
+    "C14": ["gen/SyncDec.v", "gen/SyncMisc.v", "gen/SyncEffects.v"],
     "C15": [],
     "C16": ["gen/GenConsts.v", "gen/SyncEnc.v", "gen/SyncDec.v", "gen/SyncMisc.v"],
     "C17": [],
